@@ -7,4 +7,5 @@ i = s.index('## Appendix A.')
 if '## 10. Build record' in s:
     j = s.index('## 10. Build record'); s = s[:j] + s[i:]; i = s.index('## Appendix A.')
 tab = subprocess.run(['python3', '/verif/lib/seedtable.py'], capture_output=True, text=True).stdout
-open('/verif/DESIGN.md', 'w').write(s[:i] + sec.replace('@@SEEDTABLE@@', tab) + '\n\n' + s[i:])
+btab = subprocess.run(['python3', '/verif/lib/benigntable.py'], capture_output=True, text=True).stdout
+open('/verif/DESIGN.md', 'w').write(s[:i] + sec.replace('@@SEEDTABLE@@', tab).replace('@@BENIGNTABLE@@', btab) + '\n\n' + s[i:])
